@@ -1017,6 +1017,7 @@ mod e2e {
 
 struct E2eSession {
     mock: e2e::Mock,
+    state: Arc<crate::relayer::State>,
     handle: super::BlobSubmitterHandle,
     token: CancellationToken,
     join: Option<tokio::task::JoinHandle<astria_eyre::eyre::Result<()>>>,
@@ -1061,10 +1062,11 @@ impl E2eSession {
             .expect("fresh submission state");
         let token = CancellationToken::new();
         let (submitter, handle) =
-            BlobSubmitter::new(client_builder, filter.clone(), state, startup, token.clone(), m);
+            BlobSubmitter::new(client_builder, filter.clone(), state.clone(), startup, token.clone(), m);
         let join = tokio::spawn(submitter.run());
         E2eSession {
             mock,
+            state,
             handle,
             token,
             join: Some(join),
@@ -1084,6 +1086,17 @@ impl E2eSession {
         self.mock.0.lock().unwrap().broadcasts.len()
     }
 
+    /// number of submissions whose completion the loop has processed: `submit_blobs` publishes the
+    /// Celestia height (the mock answers 100 + k for the k-th BlobTx) right before it returns to
+    /// the select arm that advances `started_submission`
+    fn completed(&self) -> usize {
+        let snapshot = *self.state.subscribe().borrow();
+        serde_json::to_value(snapshot)
+            .ok()
+            .and_then(|v| v["latest_confirmed_celestia_height"].as_u64())
+            .map_or(0, |h| h.saturating_sub(100) as usize)
+    }
+
     async fn send(&mut self, spec: &BlockSpec) -> String {
         let src = Source::new(spec.make());
         // compressed size of the block alone (the model's size oracle for the e2e sessions is the
@@ -1097,18 +1110,26 @@ impl E2eSession {
         }
     }
 
-    async fn wait(&mut self, queued: usize, broadcasts: usize) -> String {
+    async fn wait(&mut self, queued: usize, broadcasts: usize, completed: usize) -> String {
+        let report = |s: &Self| {
+            format!(
+                "timeout queued={} broadcasts={} completed={}",
+                s.queued(),
+                s.broadcasts(),
+                s.completed()
+            )
+        };
         if self.stuck {
-            return format!("timeout queued={} broadcasts={}", self.queued(), self.broadcasts());
+            return report(self);
         }
         let t0 = std::time::Instant::now();
         loop {
-            if self.queued() == queued && self.broadcasts() == broadcasts {
+            if self.queued() == queued && self.broadcasts() == broadcasts && self.completed() == completed {
                 return "ok".to_string();
             }
             if t0.elapsed() > E2E_WAIT || self.join.as_ref().map_or(true, |j| j.is_finished()) {
                 self.stuck = true;
-                return format!("timeout queued={} broadcasts={}", self.queued(), self.broadcasts());
+                return report(self);
             }
             tokio::time::sleep(std::time::Duration::from_millis(20)).await;
         }
@@ -1127,7 +1148,10 @@ impl E2eSession {
         if let Some(join) = self.join.take() {
             self.exit = match tokio::time::timeout(E2E_WAIT, join).await {
                 Ok(Ok(Ok(()))) => "ok".to_string(),
-                Ok(Ok(Err(_))) => "err".to_string(),
+                Ok(Ok(Err(e))) => {
+                    eprintln!("batch: e2e loop exited with an error: {e:#}");
+                    "err".to_string()
+                }
                 Ok(Err(_)) => "panic".to_string(),
                 Err(_) => "timeout".to_string(),
             };
@@ -1226,8 +1250,8 @@ impl Exec<'_> {
                 None => "err:bad-op".to_string(),
             },
             "e2e-wait" => {
-                let (q, b) = (arg("queued"), arg("broadcasts"));
-                self.rt.block_on(s.wait(q, b))
+                let (q, b, c) = (arg("queued"), arg("broadcasts"), arg("completed"));
+                self.rt.block_on(s.wait(q, b, c))
             }
             "e2e-confirm" => s.confirm(),
             "e2e-finish" => self.rt.block_on(s.finish()),
@@ -1485,43 +1509,47 @@ impl Gen {
             let data = vec![(0u8, 'r', size / 2), (4, 'r', size / 2), (6, 'r', 3_000)];
             g.spec(h, 0, data)
         };
-        // model of the scripted loop: what is queued / accumulating / pending / in flight
+        // the generator's own bookkeeping of the scripted loop (only used to choose the `e2e-wait`
+        // arguments; the Lean model is the judge): queued heights, number of blocks and greatest
+        // height of the accumulating batch, pending height, greatest height in flight
         let mut queued: Vec<u32> = vec![];
         let mut batch = 0usize;
-        let mut pending = false;
+        let mut pending: Option<u32> = None;
         let mut inflight: Option<u32> = None;
-        let mut greatest_in_batch = 0u32;
+        let mut batch_max = 0u32;
         let mut last = 0u32;
         let mut broadcasts = 0usize;
-        let mut settle = |queued: &mut Vec<u32>,
-                          batch: &mut usize,
-                          pending: &mut bool,
-                          inflight: &mut Option<u32>,
-                          greatest: &mut u32,
-                          last: u32,
-                          broadcasts: &mut usize| {
+        let mut completed = 0usize;
+        let settle = |queued: &mut Vec<u32>,
+                      batch: &mut usize,
+                      pending: &mut Option<u32>,
+                      inflight: &mut Option<u32>,
+                      batch_max: &mut u32,
+                      last: u32,
+                      broadcasts: &mut usize| {
             loop {
                 if inflight.is_none() && *batch > 0 {
-                    *inflight = Some(*greatest);
+                    *inflight = Some(*batch_max);
                     *broadcasts += 1;
                     *batch = 0;
-                    if *pending {
-                        *pending = false;
+                    *batch_max = 0;
+                    if let Some(p) = pending.take() {
                         *batch = 1;
+                        *batch_max = p;
                     }
                     continue;
                 }
-                if !*pending && !queued.is_empty() {
+                if pending.is_none() && !queued.is_empty() {
                     let h = queued.remove(0);
                     if h <= last {
                         continue;
                     }
                     if *batch < div {
                         *batch += 1;
+                        *batch_max = (*batch_max).max(h);
                     } else {
-                        *pending = true;
+                        *pending = Some(h);
                     }
-                    *greatest = (*greatest).max(h);
                     continue;
                 }
                 break;
@@ -1534,8 +1562,8 @@ impl Gen {
         ops.push(format!("batch e2e-send {}", spec.to_tokens()));
         queued.push(h);
         sent += 1;
-        settle(&mut queued, &mut batch, &mut pending, &mut inflight, &mut greatest_in_batch, last, &mut broadcasts);
-        ops.push(format!("batch e2e-wait queued={} broadcasts={broadcasts}", queued.len()));
+        settle(&mut queued, &mut batch, &mut pending, &mut inflight, &mut batch_max, last, &mut broadcasts);
+        ops.push(format!("batch e2e-wait queued={} broadcasts={broadcasts} completed={completed}", queued.len()));
         while sent < n {
             // a burst of blocks while the submission is in flight; one of them repeats a height
             let burst = (div + 2).min(n - sent);
@@ -1546,42 +1574,59 @@ impl Gen {
                 queued.push(h);
                 sent += 1;
                 if i == 0 && sent > 2 {
-                    let dup = mk(self, 1);
+                    // a block at exactly the height submitted last: `<=` must skip it
+                    let dup = mk(self, last.max(1));
                     ops.push(format!("batch e2e-send {}", dup.to_tokens()));
-                    queued.push(1);
+                    queued.push(last.max(1));
                 }
             }
-            settle(&mut queued, &mut batch, &mut pending, &mut inflight, &mut greatest_in_batch, last, &mut broadcasts);
-            ops.push(format!("batch e2e-wait queued={} broadcasts={broadcasts}", queued.len()));
+            settle(&mut queued, &mut batch, &mut pending, &mut inflight, &mut batch_max, last, &mut broadcasts);
+            ops.push(format!("batch e2e-wait queued={} broadcasts={broadcasts} completed={completed}", queued.len()));
             // confirm submissions one at a time until the burst is consumed
             for _ in 0..(2 * n + 4) {
-                if queued.is_empty() && !pending && batch == 0 && inflight.is_none() {
+                if queued.is_empty() && pending.is_none() && batch == 0 && inflight.is_none() {
                     break;
                 }
                 ops.push("batch e2e-confirm".to_string());
                 if let Some(g) = inflight.take() {
                     last = last.max(g);
+                    completed += 1;
                 }
-                settle(&mut queued, &mut batch, &mut pending, &mut inflight, &mut greatest_in_batch, last, &mut broadcasts);
-                ops.push(format!("batch e2e-wait queued={} broadcasts={broadcasts}", queued.len()));
-                if queued.is_empty() && !pending && batch == 0 && inflight.is_none() {
+                settle(&mut queued, &mut batch, &mut pending, &mut inflight, &mut batch_max, last, &mut broadcasts);
+                ops.push(format!("batch e2e-wait queued={} broadcasts={broadcasts} completed={completed}", queued.len()));
+                if queued.is_empty() && pending.is_none() && batch == 0 && inflight.is_none() {
                     break;
                 }
-                if queued.is_empty() && !pending && sent < n {
+                if queued.is_empty() && pending.is_none() && sent < n {
                     break;
                 }
             }
         }
         for _ in 0..(2 * n + 4) {
-            if pending || batch > 0 || inflight.is_some() || !queued.is_empty() {
+            if pending.is_some() || batch > 0 || inflight.is_some() || !queued.is_empty() {
                 ops.push("batch e2e-confirm".to_string());
                 if let Some(g) = inflight.take() {
                     last = last.max(g);
+                    completed += 1;
                 }
-                settle(&mut queued, &mut batch, &mut pending, &mut inflight, &mut greatest_in_batch, last, &mut broadcasts);
-                ops.push(format!("batch e2e-wait queued={} broadcasts={broadcasts}", queued.len()));
+                settle(&mut queued, &mut batch, &mut pending, &mut inflight, &mut batch_max, last, &mut broadcasts);
+                ops.push(format!("batch e2e-wait queued={} broadcasts={broadcasts} completed={completed}", queued.len()));
             }
         }
+        // quiescent now: a block at EXACTLY the last submitted height must be skipped (`<=`), the
+        // next height must go through
+        for hh in [last, last + 1] {
+            let spec = mk(self, hh);
+            ops.push(format!("batch e2e-send {}", spec.to_tokens()));
+            queued.push(hh);
+            settle(&mut queued, &mut batch, &mut pending, &mut inflight, &mut batch_max, last, &mut broadcasts);
+            ops.push(format!("batch e2e-wait queued={} broadcasts={broadcasts} completed={completed}", queued.len()));
+        }
+        ops.push("batch e2e-confirm".to_string());
+        if inflight.take().is_some() {
+            completed += 1;
+        }
+        ops.push(format!("batch e2e-wait queued=0 broadcasts={broadcasts} completed={completed}"));
         ops.push("batch e2e-finish".to_string());
         for i in 0..(broadcasts + 1) {
             ops.push(format!("batch e2e-sub {i}"));
